@@ -1,56 +1,3 @@
-import Cppcms.Common
-import Cppcms.C01.Scgi
-import Cppcms.C01.Fcgi
-import Cppcms.C01.Http
-/-! Line-protocol driver for C01/C02.
-`scgi <seg>…` / `fastcgi <seg>…` / `http <port> <remote> <hints> <seg>…` run the buffer-level model on
-the given segmentation and print the fate of every request on the connection. -/
-open Cppcms Cppcms.C01
-
-def hx (b : Bytes) : String := if b.isEmpty then "." else toHex b
-
-def showPairs (l : List (Bytes × Bytes)) : String :=
-  if l.isEmpty then "-" else ",".intercalate (l.map fun kv => hx kv.1 ++ ":" ++ hx kv.2)
-
-def showCookies (l : Cookies) : String :=
-  if l.isEmpty then "-" else ",".intercalate (l.map fun kc =>
-    hx kc.1 ++ ":" ++ hx kc.2.value ++ ":" ++ hx kc.2.path ++ ":" ++ hx kc.2.domain)
-
-def showKind : Kind → String
-  | .sync => "sync" | .async => "async" | .filter => "filter" | .dflt => "default"
-
-def showErr : Err → String
-  | .eof => "eof" | .violation => "violation"
-
-def showOutcome : Outcome → String
-  | .app k pre v => s!"app kind={showKind k} pre={boolStr pre} env={showPairs v.env} get={showPairs v.get} post={showPairs v.post} cookies={showCookies v.cookies} body={hx v.body}"
-  | .status c pre oe => s!"status {c} pre={boolStr pre} onerr={boolStr oe}"
-  | .raw400 => "raw400"
-  | .aborted e pre oe => s!"aborted {showErr e} pre={boolStr pre} onerr={boolStr oe}"
-  | .mgmt t c f => s!"mgmt {t} {hx c} framed={boolStr f}"
-  | .multipart => "multipart"
-  | .crash w => "crash " ++ w.replace " " "_"
-
-def showOutcomes (l : List Outcome) : String := " ; ".intercalate (l.map showOutcome)
-
-def parseSegs (ws : List String) : Option Segs := ws.mapM parseHex
-
-def step (_ : Unit) (line : String) : Unit × String :=
-  let r : String :=
-    match words line with
-    | "scgi" :: segs => match parseSegs segs with
-      | some s => showOutcomes (scgiConn {} s)
-      | none => "bad-op"
-    | "fastcgi" :: conc :: segs => match parseHex conc, parseSegs segs with
-      | some c, some s => showOutcomes (fcgiRun {} c s)
-      | _, _ => "bad-op"
-    | "http" :: sw :: nm :: port :: remote :: hints :: segs =>
-      match parseHex sw, parseHex nm, parseHex port, parseHex remote, parseSegs segs with
-      | some sw, some nm, some port, some remote, some s =>
-        let hs := hints.toList.filterMap fun c => if c == '1' then some true else if c == '0' then some false else none
-        showOutcomes (httpRun {} { software := sw, serverName := nm, port := port, remote := remote } hs s)
-      | _, _, _, _, _ => "bad-op"
-    | _ => "bad-op"
-  ((), r)
-
-def main : IO Unit := lineLoop () step
+import Cppcms.C01.DriverLib
+/-! `c01_model`: see `DriverLib.lean` for the line protocol. -/
+def main : IO Unit := Cppcms.lineLoop () step
